@@ -254,6 +254,9 @@ class FrameTrack:
         if k == 'DeclRefExpr':
             return n.get('referencedDecl', {}).get('kind') in ('VarDecl', 'ParmVarDecl', 'BindingDecl')
         if k == 'MemberExpr':
+            q = (n.get('type') or {}).get('qualType', '').rstrip()
+            if re.search(r'\)(\s*const)?(\s*noexcept)?$', q) and not re.search(r'\(lambda at [^()]*\)$', q):
+                return False        # a (static) member FUNCTION named through an object expression: not an object
             return n.get('valueCategory') == 'lvalue'
         if k in CALL_KINDS and n.get('valueCategory') == 'lvalue':
             return self.accessor(P, n)
@@ -336,6 +339,8 @@ class FrameTrack:
                 a = f'{self.touch}({P.addr(o)})'
                 if a not in out:
                     out.append(a)
+        if id(n) in getattr(self, 'row_sliced', ()):
+            return out          # the capture inside `<capture>.slice(range)`: its (conditional) write was printed by the spec's hook
         if self.mention(P, n):
             ctx = self.context(parents)
             if ctx == 'mutable' and self.const_view(n) and not self.assigned_to(n, parents):
@@ -390,6 +395,17 @@ class FrameTrack:
     # -- expression hook: a copy / move construction or temporary of an erased value is the value (so that a mapped call or a
     #    modelled write underneath it is printed instead of being erased together with the copy)
     def expr_hook(self, P, n):
+        if n.get('kind') == 'CXXOperatorCallExpr' and len(n.get('inner', [])) == 3 and self.is_cell(P, n['inner'][1].get('type')) \
+                and unwrap(n['inner'][0]).get('referencedDecl', {}).get('name') in ASSIGN_OPS \
+                and unwrap(n['inner'][1]).get('kind') in ('DeclRefExpr', 'MemberExpr'):
+            # `erased = <expression with a mapped call inside>` (e.g. `outputs = predict(..)`): the store is charged to the left-hand
+            # side by the statement hook (possibly-mutating mention); the right-hand side is printed so that the mapped call
+            # takes place instead of making the whole assignment an erased expression with a call inside (Unsupported)
+            has_mapped = any(x.get('kind') in CALL_KINDS and not self.accessor(P, x) and self.effectful(self.mapping_of(P, x))
+                             for x in astload.walk(n['inner'][2]))
+            if has_mapped:
+                P.note('frame: assignment to an erased object from an expression with a mapped call')
+                return f'((void)({P.expr(n["inner"][2])}))'
         if n.get('kind') in ('CXXConstructExpr', 'CXXTemporaryObjectExpr') and self.is_cell(P, n.get('type')) and len(n.get('inner', [])) == 1:
             c = n['inner'][0]
             if self.is_cell(P, c.get('type')) and strip_cv(qual(c['type'])).rstrip('&').strip() == strip_cv(qual(n['type'])) \
@@ -464,11 +480,52 @@ class FrameTrack:
         finally:
             self.active.discard(id(n))
 
+    @staticmethod
+    def constant_initialiser(init):
+        """the initialiser of a static local is a constant expression as far as its SYNTAX shows (literals, enumerators,
+        operators, already-evaluated ConstantExprs): no dynamic initialisation at run time.  Anything else (a call, a use of a
+        parameter / member / other variable) initialises the object the first time control passes the declaration"""
+        ok = {'IntegerLiteral', 'FloatingLiteral', 'CXXBoolLiteralExpr', 'CharacterLiteral', 'StringLiteral', 'CXXNullPtrLiteralExpr', 'ImplicitCastExpr',
+              'ParenExpr', 'UnaryOperator', 'BinaryOperator', 'InitListExpr', 'ImplicitValueInitExpr', 'CXXFunctionalCastExpr', 'CXXStaticCastExpr',
+              'CStyleCastExpr', 'ExprWithCleanups', 'MaterializeTemporaryExpr', 'ConditionalOperator'}
+        stack = [init]
+        while stack:
+            x = stack.pop()
+            if not isinstance(x, dict) or not x:
+                continue
+            k = x.get('kind')
+            if k == 'ConstantExpr':
+                continue
+            if k == 'DeclRefExpr' and x.get('referencedDecl', {}).get('kind') == 'EnumConstantDecl':
+                continue
+            if k not in ok:
+                return False
+            stack.extend(x.get('inner', []))
+        return True
+
     def decl_stmt(self, P, n, ind):
         p = '  ' * ind
         out = ''
         for v in n.get('inner', []):
             init = [x for x in v.get('inner', []) if x.get('kind') not in ('FullComment', 'BindingDecl')] if v.get('kind') in ('VarDecl', 'DecompositionDecl') else []
+            if v.get('kind') == 'VarDecl' and v.get('storageClass') == 'static' and not v.get('tls'):
+                # a function-local static: the engine prints it as a global (nv_static_<function>_<name>), stores to it are
+                # checked like any other store.  Its DYNAMIC INITIALISATION is a store as well (by whichever call gets there
+                # first: `static const auto kernel = make_kernel3x3(m_type);` makes the result of every later call depend on
+                # the history of the process): printed as a write of the object at the declaration
+                out += P.vardecl(v, p)
+                g = P.renamed.get(v.get('id'))
+                if init and g and not v.get('constexpr') and not self.constant_initialiser(init[0]):
+                    w = []
+                    self.collect(P, init[0], [v], w)
+                    out += self.touches(w, p)
+                    c = P.ctype(v['type'])
+                    P.note('frame: dynamic initialisation of a function-local static -> write of the object')
+                    if c == 'struct nv_opaque':
+                        out += f'{p}{self.touch}(&{g});   /* dynamic initialisation of the function-local static {v.get("name")} */\n'
+                    else:
+                        out += f'{p}{g} = {P.nondet(c) if not c.startswith("struct ") else "(" + c + "){0}"};   /* dynamic initialisation of the function-local static {v.get("name")} */\n'
+                continue
             if init and unwrap(init[0]).get('kind') == 'LambdaExpr':
                 out += P.vardecl(v, p)
                 continue
